@@ -131,23 +131,33 @@ end Pkgcore.C43.Spec
 namespace Pkgcore.C43.Spec
 open Pkgcore.C43
 
-/-- collapse by the definitions above -/
-def collapse (sources : List Source) (name : Name) : Verdict :=
+/-- collapse below a given root node by the definitions above; the second component is the raw value of the `default`
+key by the same rule (first node of the breadth-first order that sets it) -/
+def collapseFrom (sources : List Source) (extra : Nat) (r : Entry) : Verdict × Option String :=
   let stk := stackOf sources
-  let budget := (sources.map List.length).sum + 2
-  match root stk name with
-  | none => .noSection
-  | some r =>
-    if r.conf.inheritOnly then .inheritOnly
-    else match explore stk r.name budget [r] [] with
-      | .missing => .missing
-      | .repeated => if cyclicB stk budget r then .cyclic
-                     else if (closure stk budget [r]).any (dangling stk) then .missing else .notTree
-      | .tree order =>
-        match value "class" order with
-        | none => .noClass
-        | some _ =>
-          let keys := (dedup (order.flatMap (fun e => e.conf.items.map (·.1)))).filter (fun k => !(specialKeys.contains k))
-          .ok (keys.filterMap (fun k => (value k order).map (k, ·)))
+  let budget := (sources.map List.length).sum + 2 + extra
+  if r.conf.inheritOnly then (.inheritOnly, none)
+  else match explore stk r.name budget [r] [] with
+    | .missing => (.missing, none)
+    | .repeated => if cyclicB stk budget r then (.cyclic, none)
+                   else if (closure stk budget [r]).any (dangling stk) then (.missing, none) else (.notTree, none)
+    | .tree order =>
+      match value "class" order with
+      | none => (.noClass, none)
+      | some _ =>
+        let keys := (dedup (order.flatMap (fun e => e.conf.items.map (·.1)))).filter (fun k => !(specialKeys.contains k))
+        (.ok (keys.filterMap (fun k => (value k order).map (k, ·))), value "default" order)
+
+/-- a named section: the root is the latest section of that name, with the earlier ones below it -/
+def collapseD (sources : List Source) (name : Name) : Verdict × Option String :=
+  match root (stackOf sources) name with
+  | none => (.noSection, none)
+  | some r => collapseFrom sources 0 r
+
+def collapse (sources : List Source) (name : Name) : Verdict := (collapseD sources name).1
+
+/-- an anonymous (inline) section: a root node of its own, under a name no section and no inherit list uses -/
+def collapseAnonD (sources : List Source) (sec : Sec) : Verdict × Option String :=
+  collapseFrom sources 1 ⟨anonName, sec, []⟩
 
 end Pkgcore.C43.Spec
